@@ -345,6 +345,9 @@ func (c *Ctx) c05Writer() {
 			if _, isDefer := ci.(*ssa.Defer); isDefer {
 				continue
 			}
+			if callee.Signature.Recv() != nil && core.NamedOf(callee.Signature.Recv().Type()) == dw && callee != fn && len(ci.Common().Args) > 0 && ci.Common().Args[0] == ssa.Value(fn.Params[0]) {
+				continue // a step of the same writer: it tests the flag itself (it is checked by this very rule)
+			}
 			if !anyDominates(open, ci.Block()) {
 				okAll = false
 				R.Fail("C05.R3", fkey(fn)+":closed-guard:"+callDescr(ci), c.at(ci), "every emitting operation of the result writer is dominated by the closed == false edge", "call "+callDescr(ci)+" can emit bytes without the closed flag having been tested")
@@ -550,6 +553,38 @@ func (c *Ctx) c05Writer() {
 			R.Check(lenEqGuard(srcs, columns, ci.Block()), "C05.R5", "(Columns).Write:arity-before-frame", c.at(ci), "a row whose value count differs from the column count emits nothing", "the len(srcs) == len(columns) edge dominates Start", "the DataRow frame is started without the arity test dominating it")
 		}
 		R.Floor("C05.R5", "DataRow Start sites in Columns.Write", n, 1)
+		// a return that may report success has ended the DataRow frame: the caller counts the row as delivered
+		var ends []ssa.CallInstruction
+		for _, ci := range core.Calls(cw) {
+			if isWriterMethod(ci, "End") {
+				ends = append(ends, ci)
+			}
+		}
+		nRet := 0
+		for _, r := range returns(cw) {
+			ev := errOperand(r)
+			if ev == nil {
+				continue
+			}
+			if cls := c.Err().Classify(ev, r.Block()); !cls.MayBeNil() {
+				continue
+			}
+			nRet++
+			ended := false
+			for _, e := range ends {
+				if v, isV := e.(ssa.Value); isV && core.StripConv(ev) == v {
+					ended = true
+				}
+				if e.Block() != r.Block() && e.Block().Dominates(r.Block()) {
+					ended = true
+				}
+				if e.Block() == r.Block() && core.InstrIndex(e.(ssa.Instruction)) < core.InstrIndex(r) {
+					ended = true
+				}
+			}
+			R.Check(ended, "C05.R5", "(Columns).Write:success-after-End", c.at(r), "a row reported as written was sent: every return of Columns.Write that may carry a nil error follows the End of its DataRow frame", "the return is End's result or is dominated by the End call", "Columns.Write can return nil without having ended a DataRow frame: dataWriter.Row counts a row the client never receives")
+		}
+		R.Floor("C05.R5", "returns of Columns.Write that may report success", nRet, 1)
 	}
 }
 
